@@ -4,6 +4,7 @@ CONSTANT Depth
 LogAppend(h, r) == Append(h, r)
 LogLast(h, r) == <<r>>
 \* node universes for model checking
+MCInner1 == {1}
 MCInner2 == {1, 2}
 MCInner3 == {1, 2, 3}
 MCNoData == {}
